@@ -1,79 +1,97 @@
 // ===== Family F: compiler leaf units reachable on symbolic text =============
-use crate::re_compiler::ReCompiler;
 
 fn d1(c: char) -> Option<usize> {
     if c >= '0' && c <= '9' { Some((c as usize) - ('0' as usize)) } else { None }
 }
 
-//@ harness: f_bracket_pair
-//@ props: C07 C05
-//@ tier: quick
-//@ cost: 300
-//@ bound: ReCompiler::bracket on the text '{' a ',' b '}' for ALL scalar values a, b: Ok iff both are ASCII digits and a <= b, with (min,max)=(a,b) and the cursor after '}'; otherwise Err(Syntax), never Err(Internal)
-//@ encodes: ReCompiler::bracket
-std_stubs! {
-    #[kani::unwind(6)]
-    pub(crate) fn f_bracket_pair() {
-        let a: char = kani::any();
-        let b: char = kani::any();
-        let mut rc = ReCompiler::new(vec!['{', a, ',', b, '}'], flags(""));
-        let want = match (d1(a), d1(b)) {
-            (Some(x), Some(y)) if x <= y => Some((x, y)),
-            _ => None,
-        };
-        kani::cover!(want.is_some(), "valid {n,m}");
-        kani::cover!(matches!((d1(a), d1(b)), (Some(x), Some(y)) if x > y), "reversed bounds");
-        kani::cover!(d1(a).is_none(), "first bound is not a digit");
-        match rc.verif_bracket() {
-            Ok(()) => {
-                kani::assert(want.is_some(), "C07.bracket.rejects-malformed-or-reversed-bounds");
-                let (mn, mx) = rc.verif_bracket_bounds();
-                kani::assert(matches!(want, Some((x, y)) if x == mn && y == mx), "C07.bracket.bounds-value");
-                kani::assert(rc.verif_idx() == 5, "C07.bracket.cursor-after-brace");
-            }
-            Err(e) => {
-                kani::assert(want.is_none(), "C07.bracket.accepts-valid-bounds");
-                kani::assert(matches!(e, Error::Syntax(_)), "C05.bracket.error-is-Syntax-not-Internal");
-                std::mem::forget(e);
+// ---- ReCompiler::bracket ({n}, {n,}, {n,m}) as a verbatim slice -------------
+fn f_bracket<const N: usize>() {
+    // text = '{' followed by up to N-1 arbitrary chars
+    let (t, len) = sym_arr::<N>();
+    kani::assume(len >= 1 && t[0] == '{');
+    // reference parser, from the grammar: '{' digits ( '}' | ',' '}' | ',' digits '}' )
+    let mut i = 1;
+    let mut n1: usize = 0;
+    let mut d1n = 0;
+    let mut k = 0;
+    while k < N {
+        if i < len && i == 1 + d1n {
+            if let Some(d) = d1(t[i]) {
+                n1 = n1 * 10 + d;
+                d1n += 1;
+                i += 1;
             }
         }
-        std::mem::forget(rc);
+        k += 1;
+    }
+    let mut want: Option<(usize, usize, usize)> = None; // (min, max, cursor after '}')
+    if d1n > 0 && i < len {
+        if t[i] == '}' {
+            want = Some((n1, n1, i + 1));
+        } else if t[i] == ',' {
+            i += 1;
+            if i < len && t[i] == '}' {
+                want = Some((n1, usize::MAX, i + 1));
+            } else {
+                let start2 = i;
+                let mut n2: usize = 0;
+                let mut d2n = 0;
+                let mut k = 0;
+                while k < N {
+                    if i < len && i == start2 + d2n {
+                        if let Some(d) = d1(t[i]) {
+                            n2 = n2 * 10 + d;
+                            d2n += 1;
+                            i += 1;
+                        }
+                    }
+                    k += 1;
+                }
+                if d2n > 0 && i < len && t[i] == '}' && n1 <= n2 {
+                    want = Some((n1, n2, i + 1));
+                }
+            }
+        }
+    }
+    kani::cover!(matches!(want, Some((a, b, _)) if a < b && b != usize::MAX), "valid {n,m} with n<m");
+    kani::cover!(matches!(want, Some((_, b, _)) if b == usize::MAX), "valid {n,}");
+    kani::cover!(want.is_none() && len == N, "malformed quantifier");
+    kani::cover!(N < 5 || (want.is_none() && len >= 5 && d1(t[1]).is_some() && t[2] == ',' && d1(t[3]).is_some() && t[4] == '}'), "reversed bounds {n,m} with n>m");
+    let mut v = slice_c07::View { pattern: BArr { a: ['\0'; 8], n: len }, len, idx: 0, bracket_min: 0, bracket_max: 0 };
+    let mut q = 0;
+    while q < N {
+        v.pattern.a[q] = t[q];
+        q += 1;
+    }
+    match v.bracket() {
+        Ok(()) => {
+            kani::assert(want.is_some(), "C07.bracket.rejects-malformed-or-reversed-bounds");
+            kani::assert(matches!(want, Some((a, b, c)) if a == v.bracket_min && b == v.bracket_max && c == v.idx), "C07.bracket.bounds-and-cursor");
+        }
+        Err(e) => {
+            kani::assert(want.is_none(), "C07.bracket.accepts-every-valid-quantifier");
+            kani::assert(matches!(e, slice_c07::Error::Syntax), "C05.bracket.error-is-Syntax-not-Internal");
+        }
     }
 }
 
-//@ harness: f_bracket_single
+//@ harness: f_bracket_n6
 //@ props: C07 C05
 //@ tier: quick
-//@ cost: 300
-//@ bound: ReCompiler::bracket on the texts '{' a '}' and '{' a ',' '}' for ALL scalar values a: Ok iff a is an ASCII digit, with (a,a) resp. (a,unbounded); otherwise Err(Syntax)
-//@ encodes: ReCompiler::bracket
-std_stubs! {
-    #[kani::unwind(6)]
-    pub(crate) fn f_bracket_single() {
-        let a: char = kani::any();
-        let open_ended: bool = kani::any();
-        let pat = if open_ended { vec!['{', a, ',', '}'] } else { vec!['{', a, '}'] };
-        let mut rc = ReCompiler::new(pat, flags(""));
-        let want = d1(a);
-        kani::cover!(want.is_some() && open_ended, "valid {n,}");
-        kani::cover!(want.is_some() && !open_ended, "valid {n}");
-        kani::cover!(want.is_none(), "not a digit");
-        match rc.verif_bracket() {
-            Ok(()) => {
-                let (mn, mx) = rc.verif_bracket_bounds();
-                kani::assert(matches!(want, Some(x) if x == mn), "C07.bracket.single.min");
-                kani::assert(mx == if open_ended { usize::MAX } else { mn }, "C07.bracket.single.max");
-                kani::assert(rc.verif_idx() == if open_ended { 4 } else { 3 }, "C07.bracket.single.cursor");
-            }
-            Err(e) => {
-                kani::assert(want.is_none(), "C07.bracket.single.accepts-valid");
-                kani::assert(matches!(e, Error::Syntax(_)), "C05.bracket.single.error-is-Syntax");
-                std::mem::forget(e);
-            }
-        }
-        std::mem::forget(rc);
-    }
-}
+//@ cost: 100
+//@ slice: c07_bracket
+//@ bound: body of ReCompiler::bracket (verbatim slice; String -> BStr, self -> view) on EVERY text '{' + up to 5 chars over all scalar values: Ok iff {n}, {n,} or {n,m} with digit strings and n<=m, with the right bounds and cursor; otherwise Err(Syntax), never Err(Internal); no index error
+//@ encodes: ReCompiler::bracket(slice)
+std_stubs! { #[kani::unwind(9)] pub(crate) fn f_bracket_n6() { f_bracket::<6>() } }
+
+//@ harness: f_bracket_n8
+//@ props: C07 C05
+//@ tier: thorough
+//@ cost: 600
+//@ slice: c07_bracket
+//@ bound: body of ReCompiler::bracket (verbatim slice) on EVERY text '{' + up to 7 chars over all scalar values
+//@ encodes: ReCompiler::bracket(slice)
+std_stubs! { #[kani::unwind(11)] pub(crate) fn f_bracket_n8() { f_bracket::<8>() } }
 
 // ---- first-character set of a literal (the soundness condition of the
 //      "following term is disjoint" rewrite): must contain every character the
@@ -111,8 +129,9 @@ icu_stubs! { #[kani::unwind(12)] pub(crate) fn f_firstset_caseless() { f_firstse
 // ---- CharacterClass::is_disjoint: "may not give false positives" -------------
 //@ harness: f_is_disjoint_sound
 //@ props: C08
-//@ tier: quick
-//@ cost: 600
+//@ tier: thorough
+//@ timeout: 3400
+//@ cost: 3000
 //@ bound: CharacterClass{x}.is_disjoint(CharacterClass[lo,hi)) for ALL scalar values x and ALL ranges lo<hi (static inversion lists): a `true` answer implies x is not in [lo,hi); ranges longer than the 100-character scan threshold included
 //@ encodes: CharacterClass::is_disjoint CharacterClass::contains
 std_stubs! {
